@@ -221,8 +221,17 @@ func Run(cs *Case, workRoot string) Result {
 		return Result{Inconclusive: "Start did not return"}
 	}
 
-	// barrier
-	write("zz-barrier.yaml", ruleSetDoc("zz", 1))
+	// barrier: moved into the directory in one step, so that the watcher cannot observe a half written file
+	tmp := dir + ".barrier"
+	if werr := os.WriteFile(tmp, []byte(ruleSetDoc("zz", 1)), 0o600); werr != nil {
+		return Result{Inconclusive: werr.Error()}
+	}
+
+	if rerr := os.Rename(tmp, filepath.Join(dir, "zz-barrier.yaml")); rerr != nil {
+		_ = os.Remove(tmp)
+
+		return Result{Inconclusive: rerr.Error()}
+	}
 
 	deadline := time.After(60 * time.Second)
 
